@@ -414,7 +414,7 @@ pub fn run(cfg: &Cfg, rep: &mut Rep) {
         }
     }
     let mut r = Rng::new(cfg.seed, 0x1800 + sh as u64);
-    let nrand = cfg.budget(2_400_000);
+    let nrand = cfg.budget(8_000_000);
     let ten_ky = 100 * NPC;
     for k in 0..nrand {
         match k % 4 {
